@@ -54,14 +54,21 @@ def build(ctx, rng, thorough, want_edits):
             elif want_edits:
                 if e["kind"] == "badswap":
                     fq = uni.add(q, 0, "S%d" % i)
+                elif e["kind"] == "badflip":
+                    fq = uni.add(q, 0, "F%d" % i)
                 else:
                     kq = minigo.key(q)
                     fq = uni.base[kq]
-                lit = d["p"]["tpl"] == "bigconst" and all(d["p"][h] == q[h] for h in ("small",))
+                changed = [h for h in d["p"] if h != "pres" and d["p"][h] != q[h]]
+                # literal-only edits the default policy documents as abstracted: integer literals outside
+                # [-16,16] (bigconst k1/k2) and string literals (strbranch lit)
+                lit = e["kind"] == "edit" and changed and all(h in ("k1", "k2", "lit") for h in changed)
                 edges.append(("edit", k, fb, fq, {"same": e["same"], "witness": e["witness"], "kind": e["kind"], "litonly": lit,
                                                   "q": q}))
-            elif d["p"]["tpl"] == "bigconst" and e["kind"] == "edit" and d["p"]["small"] == q["small"]:
-                edges.append(("litedit", k, fb, uni.base[minigo.key(q)], {"q": q}))
+            elif e["kind"] == "edit" and d["p"]["tpl"] in ("bigconst", "strbranch"):
+                changed = [h for h in d["p"] if h != "pres" and d["p"][h] != q[h]]
+                if changed and all(h in ("k1", "k2", "lit") for h in changed):
+                    edges.append(("litedit", k, fb, uni.base[minigo.key(q)], {"q": q}))
     gen = os.path.join(ctx.scratch, "gen")
     where = uni.files(gen, per_file=250, shuffle=rng.shuffle)
     nat = uni.native(ctx, gen)
